@@ -129,8 +129,17 @@ static int hnd(void *arg, MPT_STRUCT(event) *ev)
 		MPT_STRUCT(message) ans = MPT_MESSAGE_INIT;
 		uint8_t body[3] = { 0xA0, serial, (uint8_t) k };
 		int r;
+		struct iovec cont[2];
 		ans.base = body;
 		ans.used = sizeof(body);
+		if (serial % 3 == 1) {
+			/* same content, fragmented: empty first part, body split over two continuation parts */
+			ans.used = 0;
+			cont[0].iov_base = body; cont[0].iov_len = 1;
+			cont[1].iov_base = body + 1; cont[1].iov_len = 2;
+			ans.cont = cont; ans.clen = 2;
+			vf_count("reply:fragmented-message", 1);
+		}
 		vf_at("reply_context.reply");
 		vf_count("reply_context.reply", 1);
 		r = ev->reply->_vptr->reply(ev->reply, &ans);
